@@ -98,6 +98,17 @@ def run(run):
     PV = Prov(A)
     _onboard(run, F, PV)
     _unlock(run, F, PV)
+    # "only to a device that is in bootloader mode ... is not yet onboarded / only to an onboarded device": mode and onboarded flag are the device's own
+    # answers for every dongle class (rule of C09, prefix B.)
+    from . import c09
+    run.rule("B.R3", "The mode and the onboarded flag the admin commands decide on are what the device answered: get_current_mode returns MODE(answer[1]) of a fresh "
+             "GET_MODE exchange (UNKNOWN only if that exchange fails), is_onboarded returns answer[1] == 1 of a fresh IS_ONBOARD exchange and lets a failed "
+             "exchange propagate (rules shared with C09).")
+    run.rid_prefix = "B."
+    try:
+        c09._device_reports(run)
+    finally:
+        run.rid_prefix = ""
     _changepin(run, F, PV)
     _pubkeys(run, F, PV)
     # the PIN policy itself (shared with C10)
@@ -337,6 +348,25 @@ def _changepin(run, F, PV):
              "reachable only for mode == BOOTLOADER.")
     fn = P.func("admin.changepin.do_changepin")
     g = A.cfg(fn, None)
+    # `any-PIN explicitly allowed` means allowed by the operator: the option is read, never written, by the admin commands
+    n_scan = 0
+    for f_ in P.all_functions:
+        if not f_.module.name.startswith("admin.") or isinstance(f_.node, ast.Lambda):
+            continue
+        n_scan += 1
+        for n_ in A.own_nodes(f_):
+            tg = n_.targets if isinstance(n_, ast.Assign) else ([n_.target] if isinstance(n_, (ast.AugAssign, ast.AnnAssign)) else [])
+            for t in tg:
+                for x in (t.elts if isinstance(t, (ast.Tuple, ast.List)) else [t]):
+                    if isinstance(x, ast.Attribute) and x.attr == "any_pin":
+                        run.fail("R3", f"{f_.qualname}|any_pin-written", f_.loc(n_),
+                                 f"{f_.qualname} sets `{norm(x)}`: the PIN policy is then lifted for the new PIN too without the operator having asked for it "
+                                 "(--any-pin), so a PIN that does not comply with the policy can be sent to the device")
+            if isinstance(n_, ast.Call) and isinstance(n_.func, ast.Name) and n_.func.id == "setattr" and len(n_.args) >= 2 \
+                    and isinstance(n_.args[1], ast.Constant) and n_.args[1].value == "any_pin":
+                run.fail("R3", f"{f_.qualname}|any_pin-written", f_.loc(n_), f"{f_.qualname} sets the any_pin option with setattr")
+    run.floor("R3", "admin functions scanned for writes of the any_pin option", n_scan, 30)
+    run.ok("R3", "the any_pin option is only read", fn.loc()) if True else None
     calls = [c for c in find_calls(A, fn, "new_pin") if is_dongle_call(run, c, fn, None, {"new_pin"})]
     run.floor("R3", "hsm.new_pin sites", len(calls), 1)
     run.check("R3", len(calls) == 1, "one new_pin site", key=f"{fn.qualname}|new_pin|sites", where=fn.loc(),
@@ -415,6 +445,32 @@ def _pubkeys(run, F, PV):
             run.check("R4", ok_, "pubkeys[name] = device key for PATHS[name]", key="do_get_pubkeys|store-expr", where=fn.loc(s),
                       message=f"`{norm(s.targets[0])}` is assigned {sorted(got_)[:1]}: not the device's key for the path "
                               "of the same name")
+    # ... obtained in the very iteration that stores it: on every path of one loop iteration (handlers included) that reaches the store, the
+    # get_public_key exchange whose answer is stored has completed normally; and no answer is requested and thrown away
+    from sa.decide import Walker
+    gpk = [c for c in find_calls(A, fn, "get_public_key")]
+    for s in st:
+        loops_ = [n for n in A.own_nodes(fn) if isinstance(n, ast.For) and any(s is x for x in ast.walk(n))]
+        run.require(len(loops_) >= 1, "do_get_pubkeys: the key-gathering store is not inside a loop over the paths")
+        lp = loops_[-1]
+        fh = [n for n in g.nodes if n.kind == "for" and n.ast is lp]
+        ft = [n for n in g.nodes if n.kind == "T" and n.note == "has-item" and n.cond in fh]
+        run.require(len(fh) == 1 and len(ft) == 1, "do_get_pubkeys: key loop structure not understood")
+        for sn in g.nodes_of(s):
+            for lf in Walker(A, fn, None, lambda e: None, follow_exc=True).walk(ft[0], stops={sn, fh[0]}):
+                if lf.kind != "stop" or lf.node is not sn:
+                    continue
+                done = [c for c in gpk if any(x is c for x in ast.walk(s))
+                        or any(k != "raised" and isinstance(st_, ast.AST) and any(x is c for x in ast.walk(st_)) for k, st_, v in lf.effects)]
+                raised = [st_ for k, st_, v in lf.effects if k == "raised"]
+                run.check("R4", len(done) == 1 and not raised, "the key stored was answered in this iteration", key="do_get_pubkeys|store-fresh", where=fn.loc(s),
+                          message=f"a path of the key loop reaches `{norm(s)[:50]}` with {len(done)} completed get_public_key exchange(s) in this iteration"
+                                  f"{' after a caught exception' if raised else ''}: the value stored is then not this path's key (left over from the previous path, "
+                                  "or unset)")
+    for c in gpk:
+        for cn in g.nodes_of(c):
+            run.check("R4", not (cn.kind == "stmt" and isinstance(cn.ast, ast.Expr)), "no key answer is thrown away", key="do_get_pubkeys|discarded-answer", where=fn.loc(c),
+                      message="a get_public_key answer is requested and discarded")
     js = [n for n in A.own_nodes(fn) if isinstance(n, ast.Assign) and norm(n.targets[0]).startswith("json_dict[")]
     run.check("R4", len(js) >= 1 and all(norm(j.targets[0]) == "json_dict[str(path)]"
               and norm(j.value) == "pk.to_string('uncompressed').hex()" for j in js), "JSON maps str(path) to the uncompressed key",
